@@ -21,6 +21,7 @@ type SolverResult struct {
 	Model   string            // raw get-value output when sat
 	All     map[string]string // per-solver status (thorough)
 	Raw     string
+	WallHit bool // some solver was stopped by the wall-clock backstop, not by its resource limit (a loaded machine)
 }
 
 type solverSpec struct {
@@ -56,7 +57,11 @@ var (
 	querySeq    int
 	querySeqMu  sync.Mutex
 	solverSeed  int
-	allSolvers  bool // thorough: wait for all answers and compare
+	allSolvers  bool // (debugging) wait for all answers and compare
+	crossCheck  bool // thorough: a second solver re-answers a sample of the queries z3 decided in phase 1
+	crossN      int
+	crossAgree  int
+	crossOpen   int
 	solverStats = map[string]*struct {
 		N    int
 		Secs float64
@@ -125,7 +130,20 @@ var (
 
 func Solve(text string, timeoutMs int) SolverResult { return SolveHint(text, timeoutMs, "") }
 
+// SolveQuick runs phase 1 only (used for the sliced variant of a query: the unsliced one follows if this fails).
+func SolveQuick(text string, timeoutMs int) SolverResult { return SolveHint(text, timeoutMs, "\x00quick") }
+
+// SolveSliced: both phases, for the sliced variant of a query; an undecided slice says nothing about the obligation
+// (the unsliced query follows), so it does not count as a failed sibling.
+func SolveSliced(text string, timeoutMs int, hint string) SolverResult {
+	return SolveHint(text, timeoutMs, "\x01"+hint)
+}
+
 func SolveHint(text string, timeoutMs int, hint string) SolverResult {
+	markFail := true
+	if strings.HasPrefix(hint, "\x01") {
+		hint, markFail = hint[1:], false
+	}
 	querySeqMu.Lock()
 	querySeq++
 	n := querySeq
@@ -169,13 +187,73 @@ func SolveHint(text string, timeoutMs int, hint string) SolverResult {
 					res.Model = out[i+1:]
 				}
 			}
+			if crossCheck && st == "unsat" {
+				statsMu.Lock()
+				do := crossN < 300
+				if do {
+					crossN++
+				}
+				statsMu.Unlock()
+				if do {
+					solverSem <- struct{}{}
+					st2, out2, _ := runOne(context.Background(), solverSpecs[1], file, 3000)
+					<-solverSem
+					raws = append(raws, "cross-check "+solverSpecs[1].name+": "+strings.TrimSpace(firstN(out2, 100)))
+					statsMu.Lock()
+					switch st2 {
+					case "unsat":
+						crossAgree++
+					case "sat":
+						res.Status = "disagree"
+					default:
+						crossOpen++
+					}
+					statsMu.Unlock()
+				}
+			}
 			res.Raw = strings.Join(raws, " | ")
 			record()
 			return res
 		}
 	}
+	if hint == "\x00quick" {
+		res.Raw = strings.Join(raws, " | ")
+		return res
+	}
+	// the first path instance of an obligation to need phase 2 goes alone; its siblings wait for its verdict: if it
+	// stays undecided the obligation has failed and they need not burn their limits as well
+	leadKey := hint
+	if !markFail {
+		leadKey = "sliced:" + hint
+	}
+	if hint != "" {
+		prefMu.Lock()
+		ch, exists := leaders[leadKey]
+		if !exists {
+			ch = make(chan struct{})
+			leaders[leadKey] = ch
+		}
+		prefMu.Unlock()
+		if exists {
+			<-ch
+		} else {
+			defer close(ch)
+		}
+		prefMu.Lock()
+		failed := failedHint[hint] || failedHint[leadKey]
+		prefMu.Unlock()
+		if failed {
+			res.Raw = strings.Join(raws, " | ") + " | phase 2 skipped: a sibling instance of this obligation is already undecided"
+			return res
+		}
+	}
 	phase2Sem <- struct{}{}
 	defer func() { <-phase2Sem }()
+	if os.Getenv("GOVC_TRACE") != "" {
+		t0 := time.Now()
+		fmt.Fprintf(os.Stderr, "[trace %s] phase2 start %s\n", t0.Format("15:04:05"), leadKey)
+		defer func() { fmt.Fprintf(os.Stderr, "[trace %s] phase2 end %s after %.0fs\n", time.Now().Format("15:04:05"), leadKey, time.Since(t0).Seconds()) }()
+	}
 	ctx, cancel := context.WithCancel(context.Background())
 	defer cancel()
 	type ans struct {
@@ -196,6 +274,9 @@ func SolveHint(text string, timeoutMs int, hint string) SolverResult {
 		a := <-ch
 		got++
 		res.All[a.name] = a.status
+		if a.status != "unsat" && a.status != "sat" && a.secs*1000 >= 0.9*float64(4*timeoutMs) {
+			res.WallHit = true
+		}
 		raws = append(raws, a.name+": "+strings.TrimSpace(firstN(a.out, 300)))
 		if a.status == "error" && res.Status == "unknown" {
 			res.Status = "error"
@@ -223,8 +304,16 @@ func SolveHint(text string, timeoutMs int, hint string) SolverResult {
 	}
 	res.Raw = strings.Join(raws, " | ")
 	record()
+	if hint != "" && res.Status != "unsat" && res.Status != "sat" {
+		prefMu.Lock()
+		failedHint[leadKey] = true
+		prefMu.Unlock()
+	}
 	return res
 }
+
+var failedHint = map[string]bool{}
+var leaders = map[string]chan struct{}{}
 
 var phase2Sem = make(chan struct{}, 5)
 
